@@ -109,7 +109,11 @@ var errAlpha = []string{
 	`true`,
 	`{"a":1,"a":2,"@level":"info","@message":"dup"}`,
 	`{"@level":"info","@message":"trailing"} x`,
-	"LEN:B-3", // a text line of that length
+	`{"@level":"INFO","@message":"upper"}`, // hclog accepts levels in any case and with surrounding blanks
+	`{"@level":"Warn","@message":"mixed","k":"v"}`,
+	`{"@level":" debug ","@message":"padded"}`,
+	`{"@message":7,"request_id":"abc-123"}`, // rejected after decoding, with a field that must not leak anywhere
+	"LEN:B-3",                               // a text line of that length
 	"LEN:B-1",
 	"LEN:B",
 	"LEN:B+1",
